@@ -116,7 +116,9 @@ Print direct_spec_bad.
             nd += 1
             cur, new, item = allc[i]
             if i >= len(cases):
-                chk.notes.append("domain edge (non-ASCII bytes: Go's strings.Fields is Unicode-aware, the model is ASCII): cur=%r new=%r" % (cur, new))
+                note = "domain edge (non-ASCII bytes: Go's strings.Fields is Unicode-aware, the model is ASCII): cur=%r new=%r" % (cur, new)
+                if note not in chk.notes:
+                    chk.notes.append(note)
                 continue
             payload = {"suite": "direct", "cur": cur, "new": new, "item": item, "impl_message": r_msg[i], "impl_utils": r_utl[i]}
             if i in sb:
@@ -524,6 +526,8 @@ def suite_sessions(chk, body_parts, post):
                 if risk and qm:
                     cname = "substring_query"
                     chk.violation("SEARCH flag keys / UNSEEN counts test the flag string by substring (strings.Contains, LIKE): a stored atom that contains the queried flag answers for it; keys %s" % [k[0] for k in sc["keys"]], payload, cls=cname)
+                elif risk:
+                    chk.violation("SEARCH by flag / UNSEEN of a later session differ from set membership AND from the model's account of the listed finding substring_query; keys %s; commands: %s" % ([k[0] for k in sc["keys"]], " | ".join(describe(sc))), payload)
                 else:
                     chk.violation("SEARCH by flag / UNSEEN of a later session differ from set membership of the stored flags (no substring twin stored); keys %s; commands: %s" % ([k[0] for k in sc["keys"]], " | ".join(describe(sc))), payload)
             else:
